@@ -13,10 +13,12 @@ package main
 //	    fed from stored ChangeInfo (BSON round trip through the real mongo registry);
 //	    BytesToSnapshot(SnapshotToBytes(root)) marshals identically, keeps GarbageLen, and
 //	    re-encodes to an equal protobuf.
-//	    class A: text styles, no undo, no array move (clean stream)
-//	    class B: undo/redo (restore spans), no text style, no array move (clean stream)
-//	    class C: array moves        → mismatches are KNOWN[c02-array-add-anchor] iff pure reorder
-//	    class D: text style + undo  → mismatches are KNOWN[c02-text-attr-removed] iff attrs only
+//	    class A: text styles, no undo, no array move
+//	    class B: undo/redo (restore spans), no text style, no array move
+//	    class C: array moves
+//	    class D: text style + undo
+//	    The class only steers the generator.  No classification consults it: a difference is tagged
+//	    only when the evidence predicate of a listed finding holds (eng_pbfuzz_diff.go).
 //	MUT <seed> <n>
 //	    n hostile inputs derived from the messages of the history: structural protobuf
 //	    mutation (nil-out / empty / foreign body for every message field, oneof body swap,
@@ -100,6 +102,7 @@ type fuzzClient struct {
 	undoSeqs map[uint32]bool
 	// first local change after which the shadow stopped agreeing with the recorded author state
 	staleBefore    []string
+	silentUndo     string
 	preAuthor      *document.InternalDocument
 	preShadow      *document.InternalDocument
 	preResp        *api.ChangePack
@@ -443,6 +446,7 @@ func (h *fuzzHist) record(cl *fuzzClient, byUndo bool) {
 func (h *fuzzHist) undo(c *Ctx, i int) {
 	cl := h.clients[i]
 	var err error
+	before, nBefore := cl.doc.Marshal(), len(cl.doc.CreateChangePack().Changes)
 	g := guardRun(pbTimeout, func() {
 		if h.r.Intn(3) == 0 && cl.doc.CanRedo() {
 			err = cl.doc.Redo()
@@ -458,6 +462,22 @@ func (h *fuzzHist) undo(c *Ctx, i int) {
 	default:
 		h.undone = true
 		c.Count("step:undo")
+		if os.Getenv("PBFUZZ_DUMP") == "undo" {
+			pk := cl.doc.CreateChangePack()
+			fmt.Fprintf(os.Stderr, "UNDO client=%d pending %d -> %d\n  before %s\n  after  %s\n", i, nBefore, len(pk.Changes), before, cl.doc.Marshal())
+			if len(pk.Changes) > nBefore {
+				pb, _ := converter.ToChanges(pk.Changes[nBefore:])
+				for _, x := range pb {
+					fmt.Fprintf(os.Stderr, "  emitted %s\n", protoTextLong(x))
+				}
+			}
+		}
+		if after := cl.doc.Marshal(); mergeTextNodes(after) != mergeTextNodes(before) && len(cl.doc.CreateChangePack().Changes) == nBefore {
+			// the undo/redo changed what the author shows and added no local change: nothing will
+			// ever tell the peers (or the author's wire shadow)
+			cl.silentUndo = firstDiff(before, after)
+			c.Count("note:undo-changed-document-without-emitting-a-change")
+		}
 		h.record(cl, true)
 	}
 }
@@ -514,8 +534,13 @@ var knownWritten = map[string]int{}
 
 var reTextJoin = regexp.MustCompile(`\{"val":"((?:[^"\\]|\\.)*)"\},\{"val":"((?:[^"\\]|\\.)*)"\}`)
 
-// mergeTextNodes joins adjacent attribute-less text nodes of a Marshal() string.
+// mergeTextNodes joins adjacent text nodes that carry the same attributes in a Marshal() string
+// (where a text is split into nodes is not content).  Falls back to joining attribute-less nodes
+// textually when the string does not parse as JSON.
 func mergeTextNodes(s string) string {
+	if out, ok := mergeTextNodesJSON(s); ok {
+		return out
+	}
 	for {
 		t := reTextJoin.ReplaceAllString(s, `{"val":"$1$2"}`)
 		if t == s {
@@ -524,10 +549,6 @@ func mergeTextNodes(s string) string {
 		s = t
 	}
 }
-
-var (
-	reAttrs = regexp.MustCompile(`"attrs":\{[^{}]*\},?`)
-)
 
 // mismatch reports a difference, classified against the two known C02 defects by the class of
 // the history **and** the shape of the difference.
@@ -957,7 +978,7 @@ func (h *fuzzHist) sync(c *Ctx, i int) {
 	// replicas to replay the response on without the GC step
 	cl.staleBefore = append(staleRegistrations(cl.doc.InternalDocument().Root()), staleRegistrations(cl.shadow.Root())...)
 	cl.preAuthor, cl.preShadow, cl.preResp = nil, nil, nil
-	if h.undone && h.gc && len(sel) > 0 {
+	if h.undone && h.gc {
 		cl.preAuthor, _ = cl.doc.InternalDocument().DeepCopy()
 		cl.preShadow, _ = cl.shadow.DeepCopy()
 		cl.preResp = pbResp
@@ -996,7 +1017,8 @@ func (h *fuzzHist) sync(c *Ctx, i int) {
 		h.kill(c, "client-apply-error")
 		return
 	}
-	if len(sel) > 0 {
+	if len(sel) > 0 || h.gc {
+		// (with GC on, a response without changes still purges)
 		h.lastPack = pbResp
 		h.compareAuthor(c, cl)
 	}
@@ -1074,6 +1096,9 @@ func (h *fuzzHist) compareAuthor(c *Ctx, cl *fuzzClient) {
 			// a Set/Add/ArraySet operation carries a dedup counter as JSONElementSimple: type + 4 value
 			// bytes, no HLL registers; the receiver builds an empty sketch (value 0)
 			what = "KNOWN[c09-dedup-counter-registers-not-in-operation-value] " + what
+		case cl.silentUndo != "":
+			// (never observed so far: reported untagged, with the evidence)
+			what = what + " [an Undo/Redo call changed the author without emitting a change: " + cl.silentUndo + "]"
 		case cl.firstBad != 0 && cl.firstBadByUndo:
 			// the shadow stopped agreeing with the author exactly at a change emitted by Undo/Redo: what
 			// the undo did locally and what the emitted change does when executed from the wire differ
@@ -1327,21 +1352,47 @@ func stripTreeMember(s string) string {
 	return s
 }
 
+// pbInitUpdate is the first change of every history (by the client with actor ..01): the shared
+// containers, with fixed tickets 1:1 (o), 1:2 (a; elements 1:3..1:5), 1:6 (t; node 1:7), 1:8 (c),
+// 1:9 (d), 1:10 (r; doc 1:10, p 1:11, "ab" 1:12, p 1:13, "cd" 1:14).
+func pbInitUpdate(root *json.Object, p *presence.Presence) error {
+	root.SetNewObject("o")
+	root.SetNewArray("a").AddInteger(1, 2, 3)
+	root.SetNewText("t").Edit(0, 0, "hello world")
+	root.SetNewCounter("c", 0)
+	root.SetNewDedupCounter("d")
+	root.SetNewTree("r", pbTreeInit())
+	p.Set("name", "\"zero\"")
+	return nil
+}
+
+// initReplica is a server-side replica holding exactly the first change (context for the corpus
+// witnesses `PB FromChangePack@init`).
+func initReplica() *document.InternalDocument {
+	var a time.ActorID
+	a[11] = 1
+	d := document.New(pbDocKey)
+	d.SetActor(a)
+	if err := d.Update(pbInitUpdate); err != nil {
+		return nil
+	}
+	_, w, err := throughWire(d.CreateChangePack())
+	if err != nil {
+		return nil
+	}
+	r := document.NewInternalDocument(pbDocKey)
+	if _, _, err := r.ApplyChangesForReplay(w.Changes...); err != nil {
+		return nil
+	}
+	return r
+}
+
 func (h *fuzzHist) run(c *Ctx, steps int) {
 	r := h.r
 	n := len(h.clients)
 	// client 0 creates the shared containers so that everybody edits the same identities
 	g := guardRun(pbTimeout, func() {
-		_ = h.clients[0].doc.Update(func(root *json.Object, p *presence.Presence) error {
-			root.SetNewObject("o")
-			root.SetNewArray("a").AddInteger(1, 2, 3)
-			root.SetNewText("t").Edit(0, 0, "hello world")
-			root.SetNewCounter("c", 0)
-			root.SetNewDedupCounter("d")
-			root.SetNewTree("r", pbTreeInit())
-			p.Set("name", "\"zero\"")
-			return nil
-		})
+		_ = h.clients[0].doc.Update(pbInitUpdate)
 	})
 	if g.bad() {
 		h.kill(c, "init-panic: "+g.site)
@@ -1862,14 +1913,18 @@ func pbExec(c *Ctx, line string, st **fuzzHist, seen map[pbFinding]bool) {
 		var f func() bool
 		var msg proto.Message
 		switch t[1] {
-		case "FromChangePack":
+		case "FromChangePack", "FromChangePack@init":
 			pb := &api.ChangePack{}
 			if err := proto.Unmarshal(b, pb); err != nil {
 				c.Count("result:PB:unmarshal-reject")
 				return
 			}
 			msg = pb
-			f = decodePack(pb, document.NewInternalDocument(pbDocKey))
+			pre := document.NewInternalDocument(pbDocKey)
+			if t[1] == "FromChangePack@init" {
+				pre = initReplica()
+			}
+			f = decodePack(pb, pre)
 		case "BytesToSnapshot":
 			f = decodeSnapshotBytes(b)
 		case "BytesToObject":
@@ -1912,18 +1967,21 @@ func pbExec(c *Ctx, line string, st **fuzzHist, seen map[pbFinding]bool) {
 func runPbfuzz(c *Ctx) error {
 	c.stats.Rule = "NO MODEL STREAM: the Lean engine `pbfuzz` prints nothing and so does this engine; HIST/MUT/PB command lines exist " +
 		"only so that a trace replays without the generator (replay is exact up to Go map iteration order inside yorkie); everything is " +
-		"decided by the oracle on the real code. Trace = one random multi-client history (2-3 document.Document replicas, 12-40 steps, " +
-		"GC on in half of them; classes A 55% clean, B 20% undo/redo, C 12% array moves, D 13% text style+undo; every pack through " +
-		"ToChangePack/Marshal/Unmarshal/FromChangePack). Oracles: each author's document = its shadow fed only from the wire (content, " +
-		"presences); server replica fed from the wire = replica fed from stored ChangeInfo through the real BSON registry (content, " +
-		"GarbageLen, version vector, lamport, presences, change ids); snapshot round trip (Marshal, GarbageLen, presences, proto.Equal " +
-		"re-encode); class A without GC: replica seeded from a mid-log snapshot = replayed replica after the rest of the log. " +
-		"Mismatches are classified against the listed known CRDT-layer findings by generator class AND shape of the difference. Then a " +
-		"malformed stream of hostile inputs derived from that history's own messages (structural protobuf mutation normalised through " +
-		"the wire + raw byte mutation) fed to FromChangePack, BytesToSnapshot, BytesToObject/Array/Tree, FromOperations, " +
-		"ChangeInfo.ToChange (also from BSON documents with damaged payloads), FromVersionVector, FromPresenceChange/" +
-		"PresenceChangeFromBytes, FromTreeNodes under recover()+10 s timeout; stage 2 uses what a decoder accepted the way the server " +
-		"would (execute on the pre-state replica, Marshal, DeepCopy, NewRoot, GC, re-encode). Non-trivial = the malformed stream of the " +
+		"decided by the oracle on the real code. Trace = one random multi-client history (2-3 document.Document replicas, 12-40 steps; " +
+		"GC on in half of them - with GC off the documents keep GC enabled and receive an empty minimum vector; classes A 55% no undo/" +
+		"move, B 20% undo/redo, C 12% array moves, D 13% text style+undo - the class only steers the generator, NO classification " +
+		"consults it; every pack through ToChangePack/Marshal/Unmarshal/FromChangePack). Oracles: each author's document = its shadow " +
+		"fed only from the wire, checked after every single local change (content, presences); server replica fed from the wire = " +
+		"replica fed from stored ChangeInfo through the real BSON registry (content, GarbageLen, version vector, lamport, presences, " +
+		"change ids); snapshot round trip judged item by item on three views - L the live root's registrations, G its object graph, " +
+		"D the decoded graph - plus the two encodings (proto.Equal after canonical ordering) and Marshal(); class A without GC: " +
+		"replica seeded from a mid-log snapshot = replayed replica after the rest of the log. Every differing item must satisfy the " +
+		"evidence predicate of a listed finding (known_findings.json, field `predicate`); anything else is written untagged = " +
+		"violation. Then a malformed stream of hostile inputs derived from that history's own messages (structural protobuf mutation " +
+		"normalised through the wire + raw byte mutation) fed to FromChangePack, BytesToSnapshot, BytesToObject/Array/Tree, " +
+		"FromOperations, ChangeInfo.ToChange (also from BSON documents with damaged payloads), FromVersionVector, FromPresenceChange/" +
+		"PresenceChangeFromBytes, FromTreeNodes under recover()+timeout; stage 2 uses what a decoder accepted the way the server would " +
+		"(execute on the pre-state replica, Marshal, DeepCopy, NewRoot, GC, re-encode). Non-trivial = the malformed stream of the " +
 		"trace contains at least one accepted and one rejected input; distinct by trace hash"
 	seen := map[pbFinding]bool{}
 	var st *fuzzHist
